@@ -139,13 +139,13 @@ type HookAnswer struct {
 
 // Policy steers the kernel's choices for a stage.
 type Policy struct {
-	Name           string
-	Shuffle        bool // pick uniformly among enabled system actions instead of the eager order
-	HoldWatch      int  // permille: chance per step that watch frames are not deliverable this step
+	Name      string
+	Shuffle   bool // pick uniformly among enabled system actions instead of the eager order
+	HoldWatch int  // permille: chance per step that watch frames are not deliverable this step
 	// HoldStream: watch streams whose next frame is not deliverable for the time being (one
 	// resource's watch is slow while the others keep up). Must not draw from the tape.
-	HoldStream func(w *World, ws *WatchStream) bool
-	APIFault       int  // permille per served in-sync request
+	HoldStream     func(w *World, ws *WatchStream) bool
+	APIFault       int // permille per served in-sync request
 	APIFaults      []string
 	HoldHook       func(h *HookRec) bool // hook calls that are not answered for the time being
 	HookFaultBurst bool                  // a hook fault in a co-release step hits every hook call released in that step
@@ -639,7 +639,7 @@ func (w *World) answer(r *ReqRec, code int, body []byte, hdr map[string]string) 
 
 func (w *World) answerErr(r *ReqRec, e *StatusErr) {
 	var hdr map[string]string
-	if e.Retry > 0 {
+	if e.Retry > 0 && !e.BodyRetryOnly {
 		hdr = map[string]string{"Retry-After": strconv.Itoa(e.Retry)}
 	}
 	w.answer(r, e.Code, statusBody(e), hdr)
@@ -802,6 +802,10 @@ var apiFaultStatus = map[string]*StatusErr{
 	"403":    {Code: 403, Reason: "Forbidden", Message: "injected: forbidden"},
 	"503":    {Code: 503, Reason: "ServiceUnavailable", Message: "injected: the server is currently unable to handle the request"},
 	"504":    {Code: 504, Reason: "Timeout", Message: "injected: request did not complete within the allotted time"},
+	// the final answer of a request the server kept timing out on / throttling: the error
+	// suggests a client delay (apierrors.SuggestsClientDelay), and client-go has given up retrying
+	"servertimeout": {Code: 500, Reason: "ServerTimeout", Message: "injected: the server was unable to return a response in the time allotted", Retry: 2, BodyRetryOnly: true},
+	"429":           {Code: 429, Reason: "TooManyRequests", Message: "injected: too many requests", Retry: 1, BodyRetryOnly: true},
 }
 
 // Serve answers one parked request, possibly with an injected fault.
